@@ -237,7 +237,8 @@ theorem seqOkL_fixL (c : RCfg) : ∀ (xs : List OT) (alc : Bool) (ind : Nat) (a 
     have hkr : (OT.toksL ind rest ++ a).map wkey = (OT.toksL ind (OT.fixL false rest) ++ b).map wkey :=
       keyApp (keys_fixL rest false ind).symm hk
     have hkc : (closeToks ind tag blk eo ++ (OT.toksL ind rest ++ a)).map wkey =
-        (closeToks ind tag blk eo ++ (OT.toksL ind (OT.fixL false rest) ++ b)).map wkey := keyApp rfl hkr
+        (closeToks ind tag blk (OT.fixEo blk eo fields (OT.fixL false items)) ++
+          (OT.toksL ind (OT.fixL false rest) ++ b)).map wkey := keyApp (closeToks_key ind tag blk _ _) hkr
     refine ⟨⟨?_, ?_⟩, seqOkL_fixL c rest false ind a b hk h3⟩
     · intro its arms ht hl
       exact fieldsSeqOk_key c (ind + 1) its fields _ _ (keyApp (keys_fixL items false (ind + 1)).symm hkc)
